@@ -211,14 +211,34 @@ impl SerializeRow for CellsRow {
     }
 }
 
-/// a request whose body is `0` untouched zero bytes (calloc'ed, never written): reaches the size checks of
+/// `n` zero bytes from `alloc_zeroed` (calloc: pages are mapped lazily and never written here), or None when the
+/// allocator refuses the mapping (RLIMIT_AS, overcommit heuristics, strict overcommit): `vec![0u8; n]` would abort
+/// the process through handle_alloc_error, which no catch_unwind catches.
+fn zeroed_vec(n: usize) -> Option<Vec<u8>> {
+    if n == 0 {
+        return Some(Vec::new());
+    }
+    let layout = std::alloc::Layout::array::<u8>(n).ok()?;
+    // SAFETY: layout has non-zero size; a non-null result is n initialised (zero) bytes owned by nobody else, allocated
+    // by the global allocator with the layout Vec<u8> uses for capacity n.
+    unsafe {
+        let p = std::alloc::alloc_zeroed(layout);
+        if p.is_null() { None } else { Some(Vec::from_raw_parts(p, n, n)) }
+    }
+}
+
+/// a request whose body is `len` zero bytes taken from a pre-allocated, never-written buffer: reaches the size checks of
 /// make / compress_append at the 2^32 boundary without resident memory
-struct Blob(usize);
+struct Blob {
+    len: usize,
+    zeros: std::cell::RefCell<Option<Vec<u8>>>, // HEADER_SIZE + len zero bytes
+}
 impl SerializableRequest for Blob {
     const OPCODE: RequestOpcode = RequestOpcode::Options;
     fn serialize(&self, buf: &mut Vec<u8>) -> Result<(), CqlRequestSerializationError> {
         let keep = buf.len();
-        let mut v = vec![0u8; keep + self.0];
+        let mut v = self.zeros.borrow_mut().take().expect("Blob serialised once");
+        v.truncate(keep + self.len);
         v[..keep].copy_from_slice(buf);
         *buf = v;
         Ok(())
@@ -227,12 +247,9 @@ impl SerializableRequest for Blob {
 /// sizes only; the component is calloc'ed and never written (the accepted side copies it once into the frame)
 fn run_big_case(what: &str, len: usize) -> String {
     // Only the ACCEPTED big sizes copy the component into the frame (resident memory); from 2^31 on the length
-    // check refuses before any copy and the zero pages are never touched, so no guard applies there.
+    // check refuses before any copy and the zero pages are never read or written, so no MemAvailable guard applies.
     let need_kib = (len as u64 / 1024) * 3;
-    if len > (1 << 28) && len < (1usize << 31) && mem_available_kib() < need_kib + (4 << 20) {
-        return "skipped".into();
-    }
-    if len > (1 << 28) && strict_overcommit() {
+    if len > (1 << 28) && len < (1usize << 31) && (mem_available_kib() < need_kib + (4 << 20) || zeroed_vec(3 * len).is_none()) {
         return "skipped".into();
     }
     fn sizes<R: SerializableRequest>(r: &R) -> String {
@@ -245,7 +262,10 @@ fn run_big_case(what: &str, len: usize) -> String {
             }
         }
     }
-    let zeros = vec![0u8; len];
+    let zeros = match zeroed_vec(len) {
+        Some(v) => v,
+        None => return "skipped".into(), // the host refuses the mapping: not-run, counted
+    };
     match what {
         "a" => sizes(&AuthResponse { response: Some(zeros) }),
         "c" => {
@@ -259,8 +279,8 @@ fn run_big_case(what: &str, len: usize) -> String {
             }
         }
         _ => {
-            // NUL bytes are valid UTF-8
-            let text = String::from_utf8(zeros).expect("utf8");
+            // SAFETY: NUL bytes are valid UTF-8.  (The checked from_utf8 would READ all the pages: 2 GiB per case.)
+            let text = unsafe { String::from_utf8_unchecked(zeros) };
             match what {
                 "p" => sizes(&Prepare { query: &text }),
                 "q" => sizes(&Query {
@@ -284,15 +304,13 @@ fn run_big_case(what: &str, len: usize) -> String {
     }
 }
 
-/// vm.overcommit_memory = 2: a multi-GiB calloc that is never touched may still be refused and abort the process
-fn strict_overcommit() -> bool {
-    std::fs::read_to_string("/proc/sys/vm/overcommit_memory").map(|s| s.trim() == "2").unwrap_or(false)
-}
 fn run_blob_case(c: Option<Compression>, tr: bool, len: usize) -> String {
-    if len > (1 << 28) && strict_overcommit() {
-        return "skipped".into();
-    }
-    match SerializedRequest::make(&Blob(len), c, tr) {
+    // the mapping may be refused by the host (not-run, counted): probe instead of aborting
+    let zeros = match zeroed_vec(len + 9) {
+        Some(v) => v,
+        None => return "skipped".into(),
+    };
+    match SerializedRequest::make(&Blob { len, zeros: std::cell::RefCell::new(Some(zeros)) }, c, tr) {
         Err(e) => err_class(&e),
         Ok(sr) => {
             let d = sr.get_data();
@@ -664,6 +682,11 @@ fn run_len_case(n: usize, tlen: usize) -> String {
     if need > (1 << 20) && mem_available_kib() < 2 * need + (4 << 20) {
         return "skipped".into();
     }
+    // the frame buffer grows by doubling: probe that the address space for it can be had at all (RLIMIT_AS, strict
+    // overcommit) instead of aborting inside make()
+    if need > (1 << 20) && zeroed_vec(2 * n * tlen + tlen).is_none() {
+        return "skipped".into();
+    }
     let text = "s".repeat(tlen);
     let stmts: Vec<BatchStatement<'_>> = (0..n).map(|_| BatchStatement::Query { text: Cow::Borrowed(text.as_str()) }).collect();
     let values: Vec<SerializedValues> = (0..n).map(|_| SerializedValues::new()).collect();
@@ -1016,7 +1039,7 @@ fn boundary_cases() -> Vec<String> {
         v.push(format!("B {} 0 c 0 6 - - p01,p02 n*10000", c));
     }
     // sizes only: small bodies and one body of 4 GiB + 34 bytes, which must be refused
-    // (needs ~5 GiB for ~3 s; skipped if memory is short)
+    // (5.0 GiB resident, 3-13 s depending on load; skipped if memory is short)
     v.push("L 3 400".into());
     v.push("L 0 0".into());
     v.push("C census".into());
@@ -1054,9 +1077,9 @@ fn main() {
     let mut fixed = boundary_cases();
     fixed.extend(rows::boundary_cases());
     if a.tier == "thorough" {
-        // a real 4 GiB + 34 byte BATCH body (needs ~5 GiB for ~3 s; reported as skipped if memory is short)
+        // a real 4 GiB + 34 byte BATCH body (5.0 GiB resident, 3-13 s depending on load; reported as skipped if memory is short)
         fixed.push("L 4 40000000".into());
-        // the accepted side of the 2^31 boundary: 2 GiB - 1 component, copied once into the frame (~4 GiB, ~2 s each)
+        // the accepted side of the 2^31 boundary: 2 GiB - 1 component, copied once into the frame (2.0 GiB resident, 2-6 s each)
         for w in ["p", "q", "a", "c", "b"] {
             fixed.push(format!("G {} 7fffffff", w));
         }
